@@ -36,6 +36,11 @@ fn setup(m: &Memfs) {
     let _ = m.mkdir_p("/d/s");
     let _ = m.write_all("/d/f", b"0;");
     let _ = m.mkdir_p("/e");
+    // two files that differ in both ids and in the mode: whichever of them is at /d/f, a query sees one of them whole
+    let _ = m.chown("/d/f", 7, 7);
+    let _ = m.write_all("/d/h", b"h;");
+    let _ = m.chown("/d/h", 8, 8);
+    let _ = m.chmod("/d/h", 0o500);
 }
 
 static TOKEN: AtomicU64 = AtomicU64::new(1);
@@ -102,6 +107,20 @@ fn alphabet() -> Vec<Op> {
         Op::AllFiles(s("/d")),
         Op::Entries(s("/d")),
         Op::Readlink(s("/d/l")),
+        // metadata queries: the owner is one read of both ids, the predicates derived from the mode one read of it.
+        // (chmod / chown themselves are not among the single-step operations of the statement - they snapshot the
+        // entries under one guard and apply under another - so the owner and mode changes the queries race against
+        // come from a move that replaces /d/f by the differently owned, differently moded /d/h of the setup)
+        Op::MoveP(s("/d/h"), s("/d/f")),
+        Op::Copy(s("/d/h"), s("/d/f")),
+        Op::Owner(s("/d/f")),
+        Op::Owner(s("/d/s")),
+        Op::Uid(s("/d/f")),
+        Op::Gid(s("/d/f")),
+        Op::IsExec(s("/d/f")),
+        Op::IsReadonly(s("/d/f")),
+        Op::IsSymlinkDir(s("/e/l")),
+        Op::IsSymlinkFile(s("/d/l")),
     ]
 }
 fn fresh_payload(op: &Op) -> Op {
@@ -242,7 +261,7 @@ impl Checker {
         let wit = |detail: String, calls: &[CallRec]| {
             J::obj(vec![
                 ("mode", J::s(mode)),
-                ("setup", J::s("mkdir_p(/d/s); write_all(/d/f, \"0;\"); mkdir_p(/e)")),
+                ("setup", J::s("mkdir_p(/d/s); write_all(/d/f, \"0;\"); mkdir_p(/e); chown(/d/f, 7, 7); write_all(/d/h, \"h;\"); chown(/d/h, 8, 8); chmod(/d/h, 0o500)")),
                 ("program", J::Arr(program.iter().map(|t| J::Arr(t.iter().map(|o| J::s(o.describe())).collect())).collect())),
                 ("observed", J::Arr(calls.iter().map(|c| J::s(format!("T{}.{} [{}..{}] {} -> {}", c.thread, c.index, c.start, c.end, c.op.describe(), c.res.short()))).collect())),
                 ("final_state", memfs_ntree(snap).to_json()),
